@@ -23,5 +23,11 @@ PeriodsAll == {0, 9, 10, 2540, 2549, 2550}
 PeriodsSim == {10, 100, 2540, 2549, 2550}
 StatusesAll == {2, 5, 7, 8, 12, 17}
 StatusesSim == {2, 5, 12, 17}
+\* configurations that change over time / tables that grow between sessions: a 2-entry table, later sessions may
+\* find the full one; templates: typed, as stored, raw memory, and a typed variable at a position that only the
+\* longer table has (Instance names it by position)
+TocShort == SubSeq(TocMC, 1, 2)
+TocLonger == {TocMC}
+AlphaEvolve == {T(1), D, M(3, 6)}
 NoBugs == {}
 ====
